@@ -217,6 +217,48 @@ func c11(c *core.Ctx) {
 		c.EndRule()
 	}
 
+	// ---------------------------------------------------------------- R6
+	if c.Rule("R6", "header decoding refuses what it cannot decode: the result of every base64 decode of a header value is used only on the nil-error edge of that very call", 2) {
+		n := 0
+		for _, fn := range p.LibFuncs("httpgrpc") {
+			for _, dc := range core.CallsIn(fn, func(_ *ssa.Call, ci core.CallInfo) bool { return ci.Pkg == "encoding/base64" && ci.Name == "DecodeString" }) {
+				n++
+				key := core.FuncName(fn) + ":decode-checked"
+				var val, errV ssa.Value
+				for _, r := range core.Refs(dc) {
+					if ex, ok := r.(*ssa.Extract); ok {
+						if ex.Index == 0 {
+							val = ex
+						} else {
+							errV = ex
+						}
+					}
+				}
+				bad := ""
+				if errV == nil {
+					bad = "the decode error is discarded"
+				}
+				if val != nil && errV != nil {
+					for _, u := range core.Refs(val) {
+						if _, isDbg := u.(*ssa.DebugRef); isDbg {
+							continue
+						}
+						if !core.GuardedBy(u, func(f core.Fact) bool {
+							return f.Op == token.EQL && core.IsNilConst(f.Y) && core.OriginIs(f.X, func(o ssa.Value) bool { return o == errV })
+						}) {
+							bad = "the decoded bytes are used without this decode's error having been found nil (a later value's result can overwrite the error)"
+						}
+					}
+				}
+				c.Check(bad == "", key, dc.Pos(), "decoded bytes are used only under err == nil of the same call", bad+": a request with an undecodable binary header value would reach the handler")
+			}
+		}
+		if n < 2 {
+			c.Fail("httpgrpc:base64-decodes", token.NoPos, "ANCHOR-MISSING: expected base64 decoding of header values (metadata and error details), found %d", n)
+		}
+		c.EndRule()
+	}
+
 	// ---------------------------------------------------------------- R2
 	if c.Rule("R2", "at most one handler invocation per request; on the accepting path exactly one of {interceptor call, direct call}", 2) {
 		for _, hc := range hcs {
@@ -417,6 +459,17 @@ func c11(c *core.Ctx) {
 					}
 				}
 				c.Check(ok, key, um.Pos(), "Unmarshal error is returned as status InvalidArgument(3)", "an undecodable request is not reported with the constant code InvalidArgument")
+				// every possibly-nil return of the callback passes the decode
+				okAll := true
+				for _, r := range core.Returns(a) {
+					if core.ClassifyErr(r.Results[0], r) == core.ErrNonNil {
+						continue
+					}
+					if !core.MustPass(core.Entry(a), r, func(in ssa.Instruction) bool { return in == ssa.Instruction(um) }) {
+						okAll = false
+					}
+				}
+				c.Check(okAll, core.FuncName(a)+":always-decodes", um.Pos(), "the callback reports success only after codec.Unmarshal ran", "the decode callback can report success without calling the codec (e.g. a shortcut for some bodies): an undecodable request for that codec is handled as if it were valid")
 				// the bytes decoded are the request body read in full
 				okBody := core.OriginIs(um.Call.Args[0], func(o ssa.Value) bool {
 					return core.IsResultOf(o, 0, "io/ioutil.ReadAll", "io.ReadAll")
